@@ -50,6 +50,16 @@ MixedValue(calc, s) ==
          [] a.k = "date" /\ b.k = "dur" /\ o \in {"+", "-"} /\ b.s = 0 /\ b.d \in 0..29 -> ShiftDate(a, o, b.d, "day")
          [] OTHER -> Unspec
 
+\* durations written next to each other add (C10), whether written out or held by names (C03): the items of a `dur_seq`
+\* line are names or literal part lists
+RECURSIVE DurSeqSum(_, _)
+DurSeqSum(env, items) ==
+  IF items = <<>> THEN DurZero
+  ELSE LET h == Head(items)
+           v == IF "name" \in DOMAIN h THEN Lookup(env, h.name) ELSE SumParts(h.parts)
+       IN  DurAdd(v, DurSeqSum(env, Tail(items)))
+DurSeqOk(env, items) == \A i \in DOMAIN items : "name" \in DOMAIN items[i] => (Bound(env, items[i].name) /\ Lookup(env, items[i].name).k = "dur")
+
 RECURSIVE LineMeaning(_, _)
 LineMeaning(ctx, line) ==
   CASE line.form = "arith"   -> [slot |-> ArithMeaning(line.toks), env |-> ctx.env]
@@ -127,6 +137,7 @@ LineMeaning(ctx, line) ==
     \* the name is bound to the value of the operand, the line means what the phrase written with the operand itself means
     [] line.form = "via"     -> [slot |-> IF Bound(ctx.env, line.name) /\ Lookup(ctx.env, line.name) = LineMeaning(ctx, line.operand).slot
                                           THEN LineMeaning(ctx, line.phrase).slot ELSE Unspec, env |-> ctx.env]
+    [] line.form = "dur_seq" -> [slot |-> IF DurSeqOk(ctx.env, line.items) THEN DurSeqSum(ctx.env, line.items) ELSE Unspec, env |-> ctx.env]
     [] line.form = "shape"   -> [slot |-> Unspec, env |-> ctx.env]
     [] OTHER                 -> [slot |-> Unspec, env |-> ctx.env]
 
